@@ -651,13 +651,13 @@ class SimulateOde(DeterministicOde):
         # (e.g. 2 timepoints =1 jump, 10 timepoints =9)
         X_out=np.zeros((len(targetTime)-1, n_trans))
 
-        # if exact, each point corresponds to a transitions and has weight 1.
+        # t[0] is the initial time, t[1:] are the times of the recorded steps and
+        # dX[k, i] is the number of times transition i fired in step k (0 or 1 for
+        # the first reaction method, a Poisson count for a tau leap), so in both
+        # modes the count per interval is the histogram weighted by column i.
         for i in range(n_trans):
-            if exact:
-                hist, bin_edges=np.histogram(t, bins=targetTime)
-            else:
-                hist, bin_edges=np.histogram(t[1:], bins=targetTime, weights=dX[:,i])
-            X_out[:,i]=hist            
+            hist, bin_edges=np.histogram(t[1:], bins=targetTime, weights=dX[:,i])
+            X_out[:,i]=hist
 
         return X_out
 
